@@ -8,14 +8,14 @@ TECHNIQUE = 'runtime monitoring under a deterministic cooperative scheduler with
 RULE = ('2-5 timed sources (some sharing a signal name) on a started ActiveObject; at a virtual instant that coincides with a posting instant of '
         'a source in half of the runs (so canceller and timer thread are runnable together) cancel_event(id) or cancel_events(event) is called '
         'from outside or from inside a handler, with the id / signal-name object either identical to what miros returned or EQUAL BUT NOT '
-        'IDENTICAL (rebuilt by join / encode-decode / JSON round trip, as if received over a network). Checked from the deque operation log: '
+        'IDENTICAL (rebuilt by join / encode-decode / JSON round trip, as if received over a network); in 40% of the runs a further thread arms an unrelated timed source at the very instant of the cancel. Checked from the deque operation log: '
         'no append of a cancelled source after the step at which the cancel call returned; exactly the targeted sources stop; every other '
         'source has its ideal number of postings at the horizon. distinct_nontrivial = distinct (cancel mode, inside/outside, identical or '
         'rebuilt, coincident instant, context-switch sequence) tuples')
 CASES = {'quick': 1500, 'thorough': 80000}
 BUDGET = {'quick': 50, 'thorough': 1200}
 REQUIRE = {'runs': 600, 'cancel_by_id': 200, 'cancel_by_name': 200, 'cancel_from_handler': 150, 'rebuilt_argument': 200, 'cancel_coincides_with_posting': 200,
-           'timer_and_canceller_runnable_together': 50}
+           'timer_and_canceller_runnable_together': 50, 'source_armed_during_cancel': 200}
 ASSUME = ['instantaneous-computation time model (clock advances only at quiescence)']
 ANNOUNCE_CASES = True
 
@@ -65,6 +65,19 @@ def run_case(ctx, n):
       tsrc = sources[rng.randrange(len(sources))]
       k = rng.randint(1, 4)
       tc = run.t0[tsrc['i']] + k * tsrc['period'] if coincide else s.clock + rng.choice([0.004, 0.033, 0.777])
+      # in part of the runs another thread arms an unrelated timed source at the very instant of the cancel
+      armer = None
+      if rng.random() < 0.4:
+        ysrc = {'i': len(sources), 'sig': 'TICK_Y', 'kind': rng.choice(['fifo', 'lifo']), 'period': rng.choice([0.01, 0.05, 0.1]),
+                'times': rng.choice([0, 3, 5]), 'deferred': rng.choice([True, False, None]), 'start_delay': 0.0}
+        sources.append(ysrc)
+
+        def arm():
+          ds.STime.sleep(max(0.0, tc - ds.S.clock))
+          timersim.start_source(ao, run, ysrc)
+        armer = ds.SThread(target=arm)
+        armer.start()
+        ctx.count('source_armed_during_cancel')
       ds.STime.sleep(max(0.0, tc - s.clock))
       if inside:
         ao.post_fifo(Event(signal='DO', payload=0))
@@ -72,6 +85,8 @@ def run_case(ctx, n):
         do_cancel(ao)
       horizon = s.clock + rng.choice([0.0777, 0.5123, 3.0011])
       ds.STime.sleep(horizon - s.clock)
+      if armer is not None:
+        armer.join()
     except ds.Verdict as v:
       ctx.violation('C11/' + v.kind, 'scenario ended in %s: %r' % (v.kind, v.info), {'sources': len(sources)})
       return
